@@ -99,6 +99,18 @@ def run(tier, v):
             if len(v.coverage["samples"]) < 3:
                 v.sample({"scenario": sc.name, "mode": "check" if check else "edit",
                           "signal_points": ["%d:%s %s" % (o.k, o.op, o.path) for o in base.trace if o.k >= first_opendir(base)][:50]})
+    # dispositions inherited from the parent: SIGHUP ignored (`nohup breadlog ...`), SIGINT ignored (a background job of a non-interactive shell).
+    # The oracle is the same: whatever the program makes of an inherited "ignore", it is never killed by the signal, and success is only
+    # reported when nothing is left to do
+    for ign_name, ign in (("SIGHUP", (signal.SIGHUP,)), ("SIGINT", (signal.SIGINT,)), ("SIGHUP+SIGINT+SIGQUIT", (signal.SIGHUP, signal.SIGINT, signal.SIGQUIT))):
+        for check in (False, True):
+            for n in (["S2", "S3"] if tier != "thorough" else ["S1", "S2", "S3", "S9", "S11"]):
+                sc = scenarios.ALL[n](check=check)
+                sc.name += "+%s-ignored-at-entry" % ign_name
+                base, nx, capped = ex.explore(sc, {"sigb"} if tier != "thorough" else {"sig"}, 1, oracle, opt=dict(opt, ignored_at_entry=ign),
+                                              op_filter=lambda o, d, x: o.k >= first_opendir(x))
+                v.subspace("%s/%s: %s ignored when the process starts; SIGINT, SIGTERM at every operation from opendir(source_dir) on" % (
+                    sc.name, "check" if check else "edit", ign_name), nx, exhaustive=not capped)
     # a second signal while the first is being honoured (an impatient second Ctrl-C, a supervisor's TERM after the user's INT)
     two = ["S2", "S9"] if tier != "thorough" else ["S1", "S2", "S3", "S4", "S8", "S9", "S9b"]
     for check in (False, True):
